@@ -344,8 +344,11 @@ type world struct {
 	phaseFinal  bool
 	tmpRoot     string
 	lastAckStep int
-	leaderChangeAfterAck bool
+	transfers   int
+	compacts    int
 	liveRestore int
+
+	leaderChangeAfterAck bool
 }
 
 func (w *world) now() time.Duration { return time.Since(w.start) }
